@@ -77,6 +77,7 @@ class Mapper:
         self.out = []       # (label xval, obs)
         self.src = []       # index of the raw event behind each entry
         self.main_tid = {}
+        self.mobs = {}      # instance -> program counter of execute() after its last step
         self.mpc = {}       # instance -> number of spawn steps of execute() done (today's code: not observable)
         self.lst = {}       # (inst, tid) -> listener index
         self.lpc = {}       # (inst, j) -> mirror pc
@@ -96,6 +97,8 @@ class Mapper:
     def emit(self, n, label, obs):
         self.out.append((label, obs))
         self.src.append(n)
+        if label[1][0] == ("N", 1):            # HMain: remember execute()'s program counter (reported with HBind)
+            self.mobs[label[1][1][1]] = obs
 
     def ensure_spawned(self, n, i, upto):
         """today's code has no hook at the spawn of an accept task: the steps are taken when something shows they happened"""
@@ -155,7 +158,7 @@ class Mapper:
                     self.emit(n, xl(xn(1), xn(i)), j + 1)
                 else:
                     self.ensure_spawned(n, i, j + 1)
-                    self.emit(n, xl(xn(2), xn(i), xn(j)), min(self.mpc.get(i, 0), nports) if self.mpc.get(i, 0) <= nports else 0)
+                    self.emit(n, xl(xn(2), xn(i), xn(j)), self.mobs.get(i, 0))
                 continue
             if name == "ctl.send":
                 if i == 0:
